@@ -532,6 +532,8 @@ impl SubRule {
             #[cfg(feature = "verif")] crate::verif::tick(46);
             *state_index = back_state;
             if self.match_opt_states(opt_states, word, pos, forwards)? {
+                // where the next repetition starts, should the rest not match from here
+                let after_repetition = *pos;
                 let mut m = true;
                 while *state_index < states.len() {
                     #[cfg(feature = "verif")] crate::verif::tick(47);
@@ -544,6 +546,7 @@ impl SubRule {
                 if m {
                     return Ok(true)
                 } else {
+                    *pos = after_repetition;
                     index += 1;
                     *self.alphas.borrow_mut() = back_alphas.clone();
                     *self.variables.borrow_mut() = back_varlbs.clone();
